@@ -12,7 +12,7 @@ open Pool
 
 /-- whatever the worker's outcome (`e = none`: returned, `e = some x`: raised `x`), a task that is filed as running
 ends up released and filed as ended by the same step -/
-theorem C12_failure_releases_slot {cap : Nat} (p : Pool) (t : Nat) (e : Option Err) (hg : Good cap p)
+theorem C12_failure_releases_slot {cap : Cap} (p : Pool) (t : Nat) (e : Option Err) (hg : Good cap p)
     (hu : p.Unreleased t) (hr : t ∈ p.running) :
     ∃ tk', (p.afterWorker t e).tasks[t]? = some tk' ∧ tk'.released = true ∧ t ∈ (p.afterWorker t e).ended ∧
       t ∉ (p.afterWorker t e).running := by
